@@ -151,6 +151,79 @@ def run_pairs(seed, n):
     return res
 
 
+def run_pair_sequences(seed, n):
+    """ONE filter object judging a SEQUENCE of pairs whose token totals coincide (balanced pair
+    first, then a qualifying unbalanced pair with the same total): state kept on the filter object
+    between filter_pair calls must not influence a verdict (C04 on histories of filter_pair)."""
+    import math
+    import py_stringsimjoin as ssj
+    import py_stringmatching as sm
+    rng = random.Random(seed + 29)
+    groups, info, exceptions = [], [], []
+    dist = {'filter': {}, 'measure': {}, 'dropped': {}}
+    idx = 0
+    for i in range(n):
+        which = rng.choice(['position', 'position', 'prefix', 'size'])
+        m = rng.choice(['COSINE', 'COSINE', 'EDIT_DISTANCE', 'JACCARD', 'DICE'])
+        k = rng.randint(2, 7)
+        sz = rng.randint(1, k - 1)
+        seq = []
+        if m == 'EDIT_DISTANCE':
+            tok = sm.QgramTokenizer(qval=2, return_set=False)
+            kind = 'qgram2'
+            t = rng.choice([1, 2, 2, 3])
+            base = ''.join(rng.choice('abcdxy') for _ in range(rng.randint(3, 6)))
+            far = ''.join(rng.choice('mnopq') for _ in range(len(base) + rng.choice([-1, 0, 1, 2])))
+            near = list(base)
+            for _ in range(t):
+                pos = rng.randrange(len(near))
+                near[pos] = rng.choice('zw')
+            seq = [(base[:len(base) - 1] if len(base) > 3 else base, base + 'qq'), (base, far), (base, ''.join(near))]
+            rng.shuffle(seq)
+            seq.append((base, ''.join(near)))
+        else:
+            tok = sm.WhitespaceTokenizer(return_set=True)
+            kind = 'ws'
+            common = ['c%d' % j for j in range(sz)]
+            x = common
+            y = common + ['y%d' % j for j in range(2 * k - 2 * sz)]
+            o, a, b = sz, len(x), len(y)
+            simv = {'COSINE': o / math.sqrt(a * b), 'JACCARD': o / (a + b - o), 'DICE': 2.0 * o / (a + b)}[m]
+            t = max(0.05, math.floor(simv * 1000) / 1000)
+            bal1 = ['p%d' % j for j in range(k)]
+            bal2 = ['p0'] + ['r%d' % j for j in range(k - 1)]
+            seq = [(' '.join(bal1), ' '.join(bal2)), (' '.join(x), ' '.join(y)), (' '.join(y), ' '.join(x))]
+        cls = {'size': ssj.SizeFilter, 'prefix': ssj.PrefixFilter, 'position': ssj.PositionFilter}[which]
+        try:
+            flt = cls(tok, m, t, True, False)
+        except Exception as e:  # noqa
+            exceptions.append({'filter': which, 'measure': m, 't': repr(t), 'exc': '%s: %s' % (type(e).__name__, e)})
+            continue
+        fd = dict(which=which, measure=m, t=t, op='>=', tok=tok, kind=kind, allow_empty=True, allow_missing=False,
+                  q=getattr(tok, 'qval', 0), filt=flt)
+        for stp, (l, r) in enumerate(seq):
+            try:
+                dropped = bool(flt.filter_pair(l, r))
+            except Exception as e:  # noqa
+                exceptions.append({'filter': which, 'measure': m, 't': repr(t), 'l': l, 'r': r,
+                                   'exc': '%s: %s' % (type(e).__name__, e), 'tb': traceback.format_exc()[-600:]})
+                continue
+            for kk, vv in (('filter', which), ('measure', m), ('dropped', dropped)):
+                dist[kk][str(vv)] = dist[kk].get(str(vv), 0) + 1
+            groups.append(fp_case(fd, l, r, idx, dropped))
+            info.append({'filter': which, 'measure': m, 't': t.hex() if isinstance(t, float) else t, 't_repr': repr(t),
+                         'step_in_sequence': stp, 'sequence': seq, 'l': l, 'r': r, 'dropped': dropped})
+            idx += 1
+    bad = C.run_groups('fpseq_%d' % seed,
+                       ['TokenOrdering', 'Filters', 'Suffix', 'Joins', 'Api', 'JoinSpec', 'FilterSpec'],
+                       groups, shard=250)
+    res = {'evaluations': len(groups), 'distribution': dist, 'differ': [], 'spec_fail': [], 'exceptions': exceptions,
+           'nontrivial': len(groups), 'samples': info[:2]}
+    for gi, ei in sorted(bad):
+        (res['differ'] if ei == 0 else res['spec_fail']).append({'case': gi, 'which': FP_SPECS[ei], 'call': info[gi]})
+    return res
+
+
 # ---------------------------------------------------------------- filter_tables
 def gen_tables_call(rng, which=None, measure=None):
     fd = make_filter(rng, which, measure)
@@ -281,7 +354,7 @@ if __name__ == '__main__':
     seed = int(sys.argv[1]) if len(sys.argv) > 1 else 1
     n = int(sys.argv[2]) if len(sys.argv) > 2 else 200
     mode = sys.argv[3] if len(sys.argv) > 3 else 'pairs'
-    r = run_pairs(seed, n) if mode == 'pairs' else run_tables(seed, n)
+    r = run_pairs(seed, n) if mode == 'pairs' else (run_pair_sequences(seed, n) if mode == 'seq' else run_tables(seed, n))
     print(json.dumps(r['distribution'], default=str))
     print('NONTRIVIAL', r['nontrivial'], 'DIFFER', len(r['differ']), 'SPEC_FAIL', len(r['spec_fail']), 'EXC', len(r['exceptions']))
     for d in (r['differ'][:4] + r['spec_fail'][:6]):
